@@ -544,27 +544,43 @@ func (f *FS) Mkdir(name string, perm fs.FileMode) error {
 	return nil
 }
 
-// Remove unlinks a file or removes an empty directory (os.Remove semantics).
-func (f *FS) Remove(name string) error {
+// Remove unlinks a file or removes an empty directory (os.Remove semantics:
+// unlink, and rmdir if that fails; one logged call because at most one of the
+// two has an effect).
+func (f *FS) Remove(name string) error { return f.remove(name, 0) }
+
+// Unlink is unlink(2): directories give EISDIR.
+func (f *FS) Unlink(name string) error { return f.remove(name, 1) }
+
+// Rmdir is rmdir(2): files give ENOTDIR.
+func (f *FS) Rmdir(name string) error { return f.remove(name, 2) }
+
+func (f *FS) remove(name string, how int) error {
 	f.mu.Lock()
 	defer f.mu.Unlock()
 	r, errno := f.walk(name)
 	p := f.enter(Op{Kind: "remove", Path: r.path, Mut: true})
 	if errno == 0 {
 		lc := lastComp(name)
+		special := lc == "." || lc == ".." || r.n == f.root
 		switch {
-		case r.n == nil:
-			errno = r.missing()
+		case special && how == 1:
+			errno = syscall.EISDIR
 		case r.n == f.root:
 			errno = syscall.EBUSY
 		case lc == ".":
 			errno = syscall.EINVAL
 		case lc == "..":
 			errno = syscall.ENOTEMPTY
+		case r.n == nil:
+			errno = r.missing()
 		case r.n.isDir():
-			if len(r.n.children) > 0 {
+			switch {
+			case how == 1:
+				errno = syscall.EISDIR
+			case len(r.n.children) > 0:
 				errno = syscall.ENOTEMPTY
-			} else {
+			default:
 				delete(r.parent.children, r.base)
 				r.parent.nlink--
 				r.n.nlink = 0
@@ -572,6 +588,8 @@ func (f *FS) Remove(name string) error {
 				f.touchDir(r.parent)
 				p.Applied = true
 			}
+		case how == 2:
+			errno = syscall.ENOTDIR
 		default:
 			delete(r.parent.children, r.base)
 			r.n.nlink--
@@ -607,6 +625,8 @@ func (f *FS) Rename(oldname, newname string) error {
 	errno := syscall.Errno(0)
 	lo, ln := lastComp(oldname), lastComp(newname)
 	switch {
+	case hasNUL(oldname) || hasNUL(newname):
+		errno = syscall.EINVAL // refused by the system-call wrapper before the kernel looks at either name
 	case eo != 0:
 		errno = eo
 	case en != 0:
@@ -615,10 +635,10 @@ func (f *FS) Rename(oldname, newname string) error {
 		errno = syscall.EBUSY
 	case ro.n == nil:
 		errno = ro.missing()
-	case (oldSlash || newSlash) && !ro.n.isDir():
-		errno = syscall.ENOTDIR
 	case rn.long:
 		errno = syscall.ENAMETOOLONG
+	case (oldSlash || newSlash) && !ro.n.isDir():
+		errno = syscall.ENOTDIR
 	case rn.n == ro.n:
 		// same file: success, nothing happens
 	case ro.n.isDir() && isAncestor(ro.n, rn.parent):
@@ -667,10 +687,13 @@ func (f *FS) Link(oldname, newname string) error {
 	f.mu.Lock()
 	defer f.mu.Unlock()
 	ro, eo := f.walk(oldname)
-	rn, en := f.walk(newname)
+	newS, newSlash := stripSlashes(newname)
+	rn, en := f.walk(newS)
 	p := f.enter(Op{Kind: "link", Path: ro.path, Path2: rn.path, Mut: true})
 	errno := syscall.Errno(0)
 	switch {
+	case hasNUL(oldname) || hasNUL(newname):
+		errno = syscall.EINVAL
 	case eo != 0:
 		errno = eo
 	case ro.n == nil:
@@ -681,10 +704,10 @@ func (f *FS) Link(oldname, newname string) error {
 		errno = syscall.EEXIST
 	case rn.long:
 		errno = syscall.ENAMETOOLONG
+	case rn.dirOnly || newSlash:
+		errno = syscall.ENOENT
 	case ro.n.isDir():
 		errno = syscall.EPERM
-	case rn.dirOnly:
-		errno = syscall.ENOENT
 	default:
 		rn.parent.children[rn.base] = ro.n
 		ro.n.nlink++
@@ -747,6 +770,8 @@ func (f *FS) Truncate(name string, size int64) error {
 	r, errno := f.walk(name)
 	p := f.enter(Op{Kind: "truncate", Path: r.path, Mut: true, Off: size})
 	switch {
+	case size < 0:
+		errno = syscall.EINVAL // checked before the name is looked at
 	case errno != 0:
 	case r.n == nil:
 		errno = r.missing()
@@ -861,6 +886,14 @@ func (f *FS) OpenFile(name string, flag int, perm fs.FileMode) (*Handle, error) 
 	f.mu.Lock()
 	defer f.mu.Unlock()
 	r, errno := f.walk(name)
+	if lc := lastComp(name); flag&os.O_CREATE != 0 && len(name) > 1 && strings.HasSuffix(name, "/") && !hasNUL(name) && lc != "." && lc != ".." && lc != "" {
+		// open(2) with O_CREAT refuses a trailing slash with EISDIR once the
+		// parent resolved, whatever the final component is
+		stripped, _ := stripSlashes(name)
+		if r, errno = f.walk(stripped); errno == 0 {
+			errno = syscall.EISDIR
+		}
+	}
 	mut := flag&(os.O_CREATE|os.O_TRUNC) != 0
 	p := f.enter(Op{Kind: "open", Path: r.path, Flags: flag, Mut: mut})
 	acc := flag & (os.O_RDONLY | os.O_WRONLY | os.O_RDWR)
@@ -900,7 +933,7 @@ func (f *FS) OpenFile(name string, flag int, perm fs.FileMode) (*Handle, error) 
 		} else {
 			n = r.n
 		}
-	case r.dirOnly:
+	case r.dirOnly || flag&syscall.O_DIRECTORY != 0:
 		errno = syscall.ENOTDIR
 	default:
 		n = r.n
@@ -964,6 +997,10 @@ func (h *Handle) Read(b []byte) (int, error) {
 		f.leave(p, syscall.EBADF)
 		return 0, err
 	}
+	if len(b) == 0 {
+		f.leave(p, 0) // the real File.Read returns before the system call
+		return 0, nil
+	}
 	n, errno := h.readAt(b, h.pos, p)
 	h.pos += int64(n)
 	p.N = n
@@ -1008,6 +1045,10 @@ func (h *Handle) ReadAt(b []byte, off int64) (int, error) {
 		f.leave(p, syscall.EINVAL)
 		return 0, &os.PathError{Op: "readat", Path: h.name, Err: errNegativeOffset}
 	}
+	if len(b) == 0 {
+		f.leave(p, 0)
+		return 0, nil
+	}
 	n, errno := h.readAt(b, off, p)
 	p.N = n
 	f.leave(p, errno)
@@ -1035,9 +1076,11 @@ func (h *Handle) Write(b []byte) (int, error) {
 		off = int64(len(h.n.data))
 	}
 	n, err := h.write(b, off)
-	if h.flag&os.O_APPEND != 0 {
+	switch {
+	case n == 0: // the file position is untouched by a failed or empty write
+	case h.flag&os.O_APPEND != 0:
 		h.pos = off + int64(n)
-	} else {
+	default:
 		h.pos += int64(n)
 	}
 	return n, err
@@ -1053,6 +1096,9 @@ func (h *Handle) WriteAt(b []byte, off int64) (int, error) {
 	}
 	if off < 0 {
 		return 0, &os.PathError{Op: "writeat", Path: h.name, Err: errNegativeOffset}
+	}
+	if len(b) == 0 {
+		return 0, nil // the real WriteAt loops "while bytes remain": no system call
 	}
 	return h.write(b, off)
 }
@@ -1286,6 +1332,11 @@ func (h *Handle) ReadDir(n int) ([]*Info, error) {
 	if !h.n.isDir() {
 		f.leave(p, syscall.ENOTDIR)
 		return nil, pathErr("readdirent", h.name, syscall.ENOTDIR)
+	}
+	if h.n.nlink == 0 {
+		// the directory was removed while open
+		f.leave(p, syscall.ENOENT)
+		return nil, pathErr("readdirent", h.name, syscall.ENOENT)
 	}
 	if h.dirEnt == nil {
 		names := make([]string, 0, len(h.n.children))
